@@ -433,5 +433,5 @@ func TestC11(t *testing.T) {
 	s := newSuite(t, "C11",
 		"1..5 requests in flight on one connection (without a body, or with a buffered or streamed one, small or larger than the window and therefore still pending; some with response HEADERS or HEADERS+partial DATA already delivered; optionally one refused with RST_STREAM(REFUSED_STREAM)), then GOAWAY with last-stream-id from {0, the id of any in-flight stream, above all, 2^31-1} and a generated code; afterwards the scripted server completes a generated subset of the streams at or below last-stream-id in a generated order and then keeps the connection or drops it; 0..2 further requests are issued right behind the GOAWAY or after quiescence and land on later scripted connections, which answer everything; finally the first connection is closed. Oracle per request tag: its HEADERS are seen at most once over all connections unless the first connection disclaimed it (id above last-stream-id, or REFUSED_STREAM); no stream is opened on a connection after its GOAWAY; a disclaimed request is resolved at quiescence (error, or the answer a later connection gave its re-sent copy) and is never reported successful from the first connection; retry==true only for requests the server cannot have processed; requests at or below last-stream-id that were answered completely succeed with exactly their response, unanswered ones fail; every RoundTrip returns exactly once. Non-trivial = 0 < last-stream-id < highest in-flight id, or a refused stream; distinct by case hash.")
 	defer s.finish()
-	runLane(s, Lane[c11Case]{Name: "goaway", Journal: true, Quick: 500, Thor: 80000, Gen: c11Gen, Run: c11Run})
+	runLane(s, Lane[c11Case]{Name: "goaway", Journal: true, Quick: 500, Thor: 40000, Gen: c11Gen, Run: c11Run})
 }
